@@ -172,6 +172,7 @@ PROPS = {
         "level": "proof",
         "verus": [("csvsign", None)],
         "kani": {"quick": [], "thorough": ["to_double_entry_signs"]},
+        "family": ("c16", {"quick": [], "thorough": []}),
         "explanation": "PARTIAL.  Verus proves the sign clauses on the real functions: FieldMap::amount books a non-empty credit column as +credit, otherwise a non-empty debit column as -debit, neither as an error, and an "
                        "`amount` column as +amount for an asset and -amount for a liability account; amount_with_sign gives the secondary amount the requested sign and keeps its magnitude and commodity; Neg for "
                        "OwnedAmount/BorrowedAmount negates the value only; the statement that orders the rows at the end of csv::import (sliced out) keeps an oldest-first statement and reverses a newest-first one.  Thorough tier (Kani on the real okane crate, one symbolic record): Txn::to_double_entry puts +amount (with the balance assertion) on the "
